@@ -116,7 +116,7 @@ def run(chk):
                 runs[name] = [int(i) for i in impl.quiet(mk().fit, Bfit.copy()).get_sensors()]
             except Exception as e:
                 chk.violation("impl", "optimizer-raises:" + name.split("/")[0], f"{name}.fit raised {type(e).__name__}: {e}", {"B": B.tolist(), "kind": kind, "dtype": str(Bfit.dtype)})
-        if it % 3 == 0:     # SSPOR with its own basis matrix
+        if it % 2 == 0:     # SSPOR with its own basis matrix
             bk = ["Identity", "SVD", "RandomProjection"][int(rng.integers(0, 3))]
             X = B.T.copy()
             mm = m if bk != "SVD" else max(1, min(m, n) - (1 if min(m, n) > 1 else 0))
@@ -124,9 +124,10 @@ def run(chk):
                 # any of the three optimizers in its unconstrained form, and any requested sensor count (also below the mode count):
                 # the leading min(n, modes) ranked sensors must be the greedy ranking of the model's OWN basis matrix as it is after the fit
                 omk = [lambda: QR(), lambda: CCQR(), lambda: GQR()][int(rng.integers(0, 3))]
-                ns_req = None if rng.random() < 0.5 else int(rng.integers(1, n + 1))
+                u_ = rng.random()
+                ns_req = None if u_ < 0.35 else (int(rng.integers(1, mm)) if (u_ < 0.75 and mm >= 2) else int(rng.integers(1, n + 1)))
                 mdl = SSPOR(basis=impl.make_basis({"kind": bk, "n_basis_modes": mm}), optimizer=omk(), n_sensors=ns_req)
-                impl.quiet(mdl.fit, X, quiet=True, seed=1)
+                impl.quiet(mdl.fit, X, quiet=True, seed=int(rng.integers(0, 1000)))
                 if np.array(mdl.basis_matrix_).shape[1] >= 2 and rng.random() < 0.4:
                     # fewer modes afterwards: the ranking must be the greedy ranking of the TRUNCATED basis matrix
                     impl.quiet(mdl.update_n_basis_modes, int(rng.integers(1, np.array(mdl.basis_matrix_).shape[1])), quiet=True)
